@@ -1,11 +1,10 @@
 #!/bin/sh
 # usage: harness/sweep_par.sh <N lanes> <quick|thorough> <seed> [<seed> ...]
 # Runs ./check Cxx --tier <tier> --seed <s> for all claimed properties and seeds on N parallel private copies of
-# /verif (harness/lanes.sh).  Prints one status line per run and the list of runs that did not exit 0.
+# /verif (see lanes.sh).  Prints one status line per run and the list of runs that did not exit 0.
 N=$1; TIER=$2; shift 2
 cd /verif
 OUT=/verif/.work/sweep_$TIER; rm -rf $OUT; mkdir -p $OUT
-: > $OUT/jobs.txt
 python3 - "$TIER" "$OUT/jobs.txt" "$@" <<'PY'
 import json, sys
 tier, out, seeds = sys.argv[1], sys.argv[2], sys.argv[3:]
@@ -16,16 +15,6 @@ with open(out, "w") as f:
             f.write(f"./check {p} --tier {tier} --seed {s} > .sweep.out 2>&1; rc=$?; "
                     f"echo \"rc=$rc {p} seed={s} $(grep -v conda .sweep.out | grep -e '^.{p}. ' -e '^VIOLATION' -e '^TOOL' | tail -2 | paste -sd' ')\"\n")
 PY
-harness/lanes.sh).  Prints one status line per run and the list of runs that did not exit 0.
-N=$1; TIER=$2; shift 2
-cd /verif
-OUT=/verif/.work/sweep_$TIER; rm -rf $OUT; mkdir -p $OUT
-: > $OUT/jobs.txt
-for s in "$@"; do
-  for p in $(python3 -c "import json;print(' '.join(x['property_id'] for x in json.load(open('MANIFEST.json'))['checks']))" 2>/dev/null); do
-    echo "./check $p --tier $TIER --seed $s > .sweep.out 2>&1; echo \"rc=\$? $p seed=$s \$(grep -v conda .sweep.out | grep '^\\[$p\\]\\|^VIOLATION\\|^TOOL' | tail -2 | tr '\\n' ' ')\"" >> $OUT/jobs.txt
-  done
-done
 harness/lanes.sh $N $OUT/jobs.txt $OUT
 cat $OUT/lane*.log | grep "^rc=" | sort -k2,3 > $OUT/summary.txt
 echo "runs: $(wc -l < $OUT/summary.txt)  ok: $(grep -c '^rc=0 ' $OUT/summary.txt)"
